@@ -196,7 +196,8 @@ Lemma discover_roots_nodup tree : forall roots acc acc',
 Proof.
   induction roots as [|r roots IH]; intros acc acc' H Hnd; cbn in H.
   - inversion H; subst. exact Hnd.
-  - destruct (add_all acc (discover_root tree r)) as [a|e|e] eqn:E; cbn in H; try discriminate.
+  - destruct (nameless (discover_root tree r)); [discriminate|].
+    destruct (add_all acc (discover_root tree r)) as [a|e|e] eqn:E; cbn in H; try discriminate.
     eapply IH; [exact H|]. eapply add_all_nodup; eauto.
 Qed.
 
